@@ -171,8 +171,44 @@ func (c *Ctx) safeEncoded(e ast.Expr, defs map[types.Object][]ast.Expr, depth in
 			return false, "value of " + x.Name + " comes from outside the function (parameter or field)"
 		}
 		for _, d := range ds {
+			// x = append(x, more...): only what is added matters
+			if call, isCall := unparen(d).(*ast.CallExpr); isCall && c.isBuiltin(call, "append") && len(call.Args) > 0 {
+				if fid, isId := unparen(call.Args[0]).(*ast.Ident); isId && c.objOf(fid) == o {
+					for _, a := range call.Args[1:] {
+						if ok, why := c.safeEncoded(a, defs, depth+1, bufOK); !ok {
+							return false, why
+						}
+					}
+					continue
+				}
+			}
 			if ok, why := c.safeEncoded(d, defs, depth+1, bufOK); !ok {
 				return false, why
+			}
+		}
+		// a table of fragments ([][]byte, [N][]byte): what is stored into its elements counts too
+		if c.isFragmentTable(o.Type()) {
+			if fd := c.funcContaining(x.Pos()); fd != nil {
+				ok, why := true, ""
+				ast.Inspect(fd.Body, func(n ast.Node) bool {
+					as, isA := n.(*ast.AssignStmt)
+					if !isA || len(as.Lhs) != len(as.Rhs) {
+						return true
+					}
+					for i, l := range as.Lhs {
+						if ix, isIx := unparen(l).(*ast.IndexExpr); isIx {
+							if lid, isId := unparen(ix.X).(*ast.Ident); isId && c.objOf(lid) == o {
+								if good, w := c.safeEncoded(as.Rhs[i], defs, depth+1, bufOK); !good {
+									ok, why = false, w
+								}
+							}
+						}
+					}
+					return true
+				})
+				if !ok {
+					return false, why
+				}
 			}
 		}
 		return true, ""
@@ -240,6 +276,23 @@ func (c *Ctx) safeEncoded(e ast.Expr, defs map[types.Object][]ast.Expr, depth in
 				}
 				if n > 0 {
 					return false, why
+				}
+			}
+		}
+		if c.isBuiltin(x, "make") && len(x.Args) > 0 && c.isFragmentTable(c.typeOf(x)) {
+			return true, "" // an empty table of fragments; its elements are checked where they are stored
+		}
+		// a call through a function value taken from a table of producers: every producer must be an encoder
+		if _, static := c.callee(x).(*types.Func); !static && !c.isConversion(x) {
+			if fd := c.funcContaining(x.Pos()); fd != nil && depth < 5 {
+				vals, resolved := c.funcValuesOf(fd, x.Fun)
+				if resolved && len(vals) > 0 {
+					for _, fv := range vals {
+						if good, w := c.producerIsEncoder(fv, depth+1); !good {
+							return false, w
+						}
+					}
+					return true, ""
 				}
 			}
 		}
@@ -963,10 +1016,25 @@ func ruleTotalOrder(c *Ctx) {
 		c.saw(fn)
 		recv := c.recvObj(fd)
 		uniqueField := c.uniqueKeyFields(c.recvTypeOf(fd))
+		ocLess := c.newOriginCtx(fd)
 		isUniqueKeyPair := func(x, y ast.Expr) bool {
 			px, okx := c.apath(x)
 			py, oky := c.apath(y)
-			return okx && oky && px.Root == recv && py.Root == recv && len(px.Steps) > 0 && lastStep(px) == lastStep(py) && uniqueField[lastStep(px)]
+			if okx && oky && px.Root == recv && py.Root == recv && len(px.Steps) > 0 && lastStep(px) == lastStep(py) && uniqueField[lastStep(px)] {
+				return true
+			}
+			// through local aliases of the two elements (left, right := &items[i], &items[j])
+			last := func(e ast.Expr) (string, bool) {
+				for _, o := range ocLess.origins(e, 0) {
+					if o.root == recv && len(o.steps) > 0 {
+						return o.steps[len(o.steps)-1], true
+					}
+				}
+				return "", false
+			}
+			lx, okx2 := last(x)
+			ly, oky2 := last(y)
+			return okx2 && oky2 && lx == ly && uniqueField[lx]
 		}
 		isOrderOp := func(op token.Token) bool {
 			return op == token.LSS || op == token.GTR || op == token.LEQ || op == token.GEQ
@@ -1008,6 +1076,12 @@ func ruleTotalOrder(c *Ctx) {
 				}
 				for _, i := range ifs {
 					if node.Pos() >= i.Body.Pos() && node.End() <= i.Body.End() && sameOperands(i.Cond, token.NEQ) {
+						guarded = true
+					}
+				}
+				// the conditions in force say the two keys differ (whatever statement shape established it)
+				for _, cl := range c.literalsAt(fd, node) {
+					if !cl.neg && sameOperands(cl.e, token.NEQ) || cl.neg && sameOperands(cl.e, token.EQL) {
 						guarded = true
 					}
 				}
@@ -1252,4 +1326,162 @@ func (c *Ctx) funcContaining(p token.Pos) *ast.FuncDecl {
 		}
 	}
 	return nil
+}
+
+// isFragmentTable: a slice or array of byte slices.
+func (c *Ctx) isFragmentTable(t types.Type) bool {
+	if t == nil {
+		return false
+	}
+	var elem types.Type
+	switch u := types.Unalias(t).Underlying().(type) {
+	case *types.Slice:
+		elem = u.Elem()
+	case *types.Array:
+		elem = u.Elem()
+	default:
+		return false
+	}
+	sl, ok := types.Unalias(elem).Underlying().(*types.Slice)
+	if !ok {
+		return false
+	}
+	b, ok := sl.Elem().Underlying().(*types.Basic)
+	return ok && b.Kind() == types.Byte
+}
+
+// funcValuesOf resolves `v.field` (v the value variable of a range over a table of small structs) to the
+// function values the field can hold: the table is a literal in the function, or a slice / variadic
+// parameter whose arguments are literals at every call site of the function in the package.
+func (c *Ctx) funcValuesOf(fd *ast.FuncDecl, fun ast.Expr) ([]ast.Expr, bool) {
+	se, ok := unparen(fun).(*ast.SelectorExpr)
+	if !ok {
+		return nil, false
+	}
+	vid, ok := unparen(se.X).(*ast.Ident)
+	if !ok {
+		return nil, false
+	}
+	field := se.Sel.Name
+	fieldOf := func(lit ast.Expr) (ast.Expr, bool) {
+		cl, ok := unparen(lit).(*ast.CompositeLit)
+		if !ok {
+			return nil, false
+		}
+		st, ok := derefType(c.typeOf(cl)).Underlying().(*types.Struct)
+		if !ok {
+			return nil, false
+		}
+		for i, el := range cl.Elts {
+			if kv, isKV := el.(*ast.KeyValueExpr); isKV {
+				if id, isId := kv.Key.(*ast.Ident); isId && id.Name == field {
+					return kv.Value, true
+				}
+				continue
+			}
+			if i < st.NumFields() && st.Field(i).Name() == field {
+				return el, true
+			}
+		}
+		return nil, false
+	}
+	// (a) range over a literal table
+	if elems := c.rangeElemsOf(fd, c.objOf(vid)); len(elems) > 0 {
+		var out []ast.Expr
+		for _, el := range elems {
+			v, ok := fieldOf(el)
+			if !ok {
+				return nil, false
+			}
+			out = append(out, v)
+		}
+		return out, true
+	}
+	// (b) range over a parameter: the literals handed in by every caller
+	var param types.Object
+	ast.Inspect(fd.Body, func(n ast.Node) bool {
+		rs, ok := n.(*ast.RangeStmt)
+		if !ok || rs.Value == nil {
+			return true
+		}
+		if v, ok := rs.Value.(*ast.Ident); ok && c.objOf(v) == c.objOf(vid) {
+			if pid, ok := unparen(rs.X).(*ast.Ident); ok && c.paramIndex(fd, c.objOf(pid)) >= 0 {
+				param = c.objOf(pid)
+			}
+		}
+		return true
+	})
+	if param == nil {
+		return nil, false
+	}
+	pi := c.paramIndex(fd, param)
+	self, _ := c.Info.Defs[fd.Name].(*types.Func)
+	if self == nil || self.Exported() {
+		return nil, false
+	}
+	var out []ast.Expr
+	resolved, sites := true, 0
+	for _, g := range c.allFuncDecls() {
+		if g.Body == nil {
+			continue
+		}
+		ast.Inspect(g.Body, func(n ast.Node) bool {
+			call, ok := n.(*ast.CallExpr)
+			if !ok || c.callee(call) != self {
+				return true
+			}
+			sites++
+			if call.Ellipsis.IsValid() {
+				resolved = false
+				return true
+			}
+			for ai := pi; ai < len(call.Args); ai++ {
+				v, ok := fieldOf(call.Args[ai])
+				if !ok {
+					resolved = false
+					continue
+				}
+				out = append(out, v)
+			}
+			return true
+		})
+	}
+	return out, resolved && sites > 0
+}
+
+// producerIsEncoder: a function value that produces one JSON fragment: a closure all of whose first results are
+// encoder results, or the MarshalJSON method of some value.
+func (c *Ctx) producerIsEncoder(fv ast.Expr, depth int) (bool, string) {
+	fv = unparen(fv)
+	if isNilIdent(c, fv) {
+		return true, ""
+	}
+	if se, ok := fv.(*ast.SelectorExpr); ok && se.Sel.Name == "MarshalJSON" {
+		return true, ""
+	}
+	fl, ok := fv.(*ast.FuncLit)
+	if !ok {
+		return false, "fragment producer " + exprString(fv) + " is not a closure over an encoder"
+	}
+	encl := c.funcContaining(fl.Pos())
+	if encl == nil {
+		return false, "closure outside any function"
+	}
+	defs := c.localDefs(encl)
+	good, why, n := true, "", 0
+	ast.Inspect(fl.Body, func(nd ast.Node) bool {
+		if inner, isLit := nd.(*ast.FuncLit); isLit && inner != fl {
+			return false
+		}
+		rs, isR := nd.(*ast.ReturnStmt)
+		if !isR || len(rs.Results) == 0 {
+			return true
+		}
+		n++
+		if ok, w := c.safeEncoded(rs.Results[0], defs, depth+1, func(types.Object) bool { return false }); !ok {
+			good, why = false, w
+		}
+		return true
+	})
+	return good && n > 0, why
 }
